@@ -21,6 +21,10 @@ def verify_function(program, lib, qual, timeout_ms=10000, only=None):
     out = {"function": qual, "hash": fi.hash, "obligations": [], "error": None, "paths": 0, "vacuity": None, "contracts_used": [], "inlined": []}
     ex = Executor(program, lib, qual)
     ex._raises = []
+    ex.write_hooks = []
+    ex.node_write_hooks = []
+    if hasattr(c, "prepare"):
+        c.prepare(ex)
     try:
         n_setups = 0
         for p0, recv, args, kw, tag in c.setups(ex):
